@@ -71,6 +71,25 @@ class C19(Prop):
             yield dict(entry="preflib_%s_to_profile" % {"cat": "categorical"}.get(wrong or kind, wrong or kind), family=kind + ("_wrongtype" if wrong else ""),
                        kind=kind, m=m, votes=votes, ncat=ncat, tb=tb, call=(wrong or kind), seed=i, twice=(wrong is None and i % 3 == 1))
 
+        # look-alikes: the file is labelled with one ordinal data type but every order in it is strict and complete (or complete with ties), so its
+        # CONTENT would also be a valid instance of another type; the converter of that other type must still reject it by its declared type
+        for i in range(48 if tier == "quick" else 600):
+            kind = ["soi", "toc", "toi", "soc"][i % 4]; m = rng.randint(1, 6)
+            votes = []; seen = set()
+            for _ in range(rng.randint(1, 5)):
+                alts = list(range(1, m + 1)); rng.shuffle(alts)
+                if kind == "toi" and i % 8 >= 4:      # complete with ties: content-wise a ToC instance
+                    order = []; j = 0
+                    while j < len(alts):
+                        k = rng.randint(1, 3); order.append(alts[j:j + k]); j += k
+                else:
+                    order = [[a] for a in alts]
+                key = tuple(tuple(c) for c in order)
+                if key in seen: continue
+                seen.add(key); votes.append((rng.randint(1, 3), order))
+            wrong = [k for k in ("soc", "soi", "toc", "toi") if k != kind][(i // 4) % 3]
+            yield dict(entry="preflib_%s_to_profile" % wrong, family=kind + "_lookalike_wrongtype", kind=kind, m=m, votes=votes, ncat=0, tb=TBS[i % 3], call=wrong, seed=i, twice=False)
+
     def run(self, case):
         from preflibtools.instances import OrdinalInstance, CategoricalInstance
         import socialchoicekit.preflib_utils as PL
